@@ -17,6 +17,7 @@ int  verif_mutex_unlock(void *m);
 void verif_event(const char *fmt, ...);
 void verif_point(const char *label);
 int  verif_tid(void);
+int  verif_modinit_fails(int lib);      /* init kind M: the module init raises (e.g. _cffi_backend missing) */
 
 /* the stub of _cffi_backend's cffi_call_python, one per library */
 struct _cffi_externpy_s;
